@@ -15,6 +15,7 @@ use verif_harness::{Rng, arg};
 include!("colls_extras.inc.rs");
 include!("colls_parts.inc.rs");
 include!("colls_cap.inc.rs");
+include!("colls_helpers.inc.rs");
 
 thread_local! {
     static DROPS: RefCell<Vec<u32>> = const { RefCell::new(Vec::new()) };
@@ -753,6 +754,27 @@ fn main() {
     if !input_file.is_empty() {
         for l in std::fs::read_to_string(&input_file).expect("cannot read --input").lines() {
             if let Some((kind, input, op, ans, dp)) = parse_case(l) { run_case(&mut w, &kind, &input, &op, &ans, &dp); }
+            else if let Some(hp) = helpx::Params::parse(l) {
+                writeln!(w, "{}", hp.line()).unwrap();
+                for m in helpx::helpers_probe(&hp) { writeln!(w, "X colls helpers case :: {m}").unwrap(); }
+            }
+            else if let Some(rest) = l.strip_prefix("HB ") {
+                let f: Vec<&str> = rest.splitn(3, ' ').collect();
+                if f.len() == 3 {
+                    let ops: Vec<helpx::ZsOp> = f[2].split(';').filter_map(helpx::zs_parse).collect();
+                    writeln!(w, "{l}").unwrap();
+                    for m in helpx::zs_box_probe(f[0].parse().unwrap_or(0), f[1].parse().unwrap_or(-1), &ops) { writeln!(w, "X colls helpers case :: {m}").unwrap(); }
+                }
+            }
+            else if let Some(rest) = l.strip_prefix("HZ ") {
+                let f: Vec<&str> = rest.splitn(3, ' ').collect();
+                if f.len() == 3 {
+                    let ops: Vec<helpx::ZsOp> = f[2].split(';').filter_map(helpx::zs_parse).collect();
+                    let (kind, fuse) = (f[0].parse().unwrap_or(0), f[1].parse().unwrap_or(-1));
+                    writeln!(w, "{}", helpx::zs_line(kind, fuse, &ops)).unwrap();
+                    for m in helpx::zs_probe(kind, fuse, &ops) { writeln!(w, "X colls helpers case :: {m}").unwrap(); }
+                }
+            }
             else if l.starts_with("V ") {
                 if let Some((notes, vline)) = capx::cap_replay(l) {
                     writeln!(w, "{vline}").unwrap();
@@ -792,6 +814,22 @@ fn main() {
             let (notes, vline) = capx::cap_history(&mut r, &mut |l: &str| { writeln!(w, "{l}").unwrap(); w.flush().unwrap(); });
             writeln!(w, "{vline}").unwrap();
             for m in notes { writeln!(w, "X colls cap history :: {m}").unwrap(); }
+        }
+        if case % 10 == 6 {
+            let hp = helpx::gen_params(&mut r);
+            writeln!(w, "{}", hp.line()).unwrap();
+            for m in helpx::helpers_probe(&hp) { writeln!(w, "X colls helpers case :: {m}").unwrap(); }
+        }
+        if case % 10 == 8 {
+            let (kind, fuse, ops) = helpx::gen_zs(&mut r);
+            writeln!(w, "{}", helpx::zs_line(kind, fuse, &ops)).unwrap();
+            for m in helpx::zs_probe(kind, fuse, &ops) { writeln!(w, "X colls helpers case :: {m}").unwrap(); }
+        }
+        if case % 20 == 18 {
+            let (_, fuse, ops) = helpx::gen_zs(&mut r);
+            let n = r.below(14) as usize;
+            writeln!(w, "HB {n} {fuse} {}", helpx::zs_line(0, 0, &ops).splitn(4, ' ').nth(3).unwrap_or("")).unwrap();
+            for m in helpx::zs_box_probe(n, fuse, &ops) { writeln!(w, "X colls helpers case :: {m}").unwrap(); }
         }
         if case % 20 == 12 {
             let (notes, vline) = capx::zst_history(&mut r, &mut |l: &str| { writeln!(w, "{l}").unwrap(); w.flush().unwrap(); });
